@@ -7,7 +7,7 @@
  *        nb_frames 48 -> quick: frames {0,1,46,47} up to 3 entries and {0,1,47} at 4 entries; thorough: {0,1,46,47} up to 4 entries
  *        (48 frames cannot trigger the repeat mechanism with so few entries; family B covers that);
  *        thorough adds nb_frames 4 (every frame, up to 4 entries).
- *  B  repeat family: nb_frames = 1..48, every frame carries the same k-tuple (k <= 2 quick, <= 3 thorough) of elements from
+ *  B  repeat family: nb_frames = 1..48, every frame carries the same k-tuple (k <= 2 quick (<= 3 for nb_frames <= 3), <= 3 thorough) of elements from
  *        {short id3 L0, short id4 1 byte, long id32 2 bytes, long id33 0 bytes, long id127 255 bytes}, listed frame-major and
  *        slot-major, with 0 or 1 deviation at every (frame,slot): entry dropped / other id / other length / extra entry inserted.
  *        (This is where "repeat these extensions" with many frames, partial repeats and the final L=0 form occur.)
@@ -281,7 +281,7 @@ int main(int argc,char **argv){
    for(i=0;i<2;i++){ int l; for(l=0;l<6;l++){ EL[NEL].id=i?127:32; EL[NEL].len=LLEN[l]; NEL++; } }
    for(c=0;c<6;c++){ int m=maxn_of(&CFG[c]); long per=NEL*CFG[c].nfr; if(m<=0) continue; add_item(0,c,-1); if(m>=2) for(p=0;p<per*per;p++) add_item(0,c,p); }
    famk=(int)mc_arg("--famk",MC.tier?3:2);
-   for(i=1;i<=48;i++) for(p=0;p<(famk>=3?155:famk==2?30:5);p++) add_item(1,i,p);
+   for(i=1;i<=48;i++) for(p=0;p<((famk>=3||i<=3)?155:famk==2?30:5);p++) add_item(1,i,p);   /* 3-tuples (long, short, long per frame ...) also in the quick tier for <= 3 frames */
    for(p=0;p<48;p++) add_item(2,0,p);
    for(p=0;p<6;p++) add_item(3,0,p);
    add_item(4,0,0);
